@@ -229,9 +229,16 @@ class Check(PropertyCheck):
                   "reachable state the DATA bytes on the wire for an upstream id, followed by what is still buffered for it, "
                   "are a prefix of the body data handed over for ITS client stream (all of it while the stream may still send; "
                   "nothing foreign, twice or out of order; no DATA on an id not yet allocated), needing only Good; "
-                  "upstream_bytes_prefix_of_submitted; demux_own_stream / route_own_stream "
+                  "upstream_bytes_prefix_of_submitted; no_stream_lost_on_segment_close (a received segment that closes the connection "
+                  "— GOAWAY, protocol error, refused response head — fails every queued stream; with no_stream_lost_on_close and "
+                  "client_event_never_closes these are all the ways the connection closes); crashed_only_by_unknown_trailers "
+                  "(the KeyError branch of the id translation is unreachable when hyper-h2 reports trailers only for opened "
+                  "streams); demux_own_stream / route_own_stream "
                   "(HttpLayer.streams after any make_stream / DropStream sequence hands an event to the HttpStream created for "
-                  "its id, or to nobody). The model is tied to the code by replaying, in "
+                  "its id, or to nobody — the conclusions follow from the shape of the model's table operations; what ties them "
+                  "to mitmproxy is the driver: every assignment to, pop from and lookup in the real HttpLayer.streams is "
+                  "replayed by the ops L make / L drop / L route and the table, key -> stream_id of the stored HttpStream, and "
+                  "every lookup result are compared). The model is tied to the code by replaying, in "
                   "lock step, the events the real Http2Client received in end-to-end runs of interleaved, arbitrarily "
                   "segmented multi-stream scripts (frames written incl. their sizes, events passed up with their ids, queue, "
                   "id map, open streams, buffers compared after every call), and by direct differential runs of "
@@ -255,7 +262,11 @@ class Check(PropertyCheck):
                   "them as hypotheses are kept. For a "
                   "stream the peer has reset the buffered bytes are (intentionally) dropped. Http2Server passes events up under "
                   "the id hyper-h2 reports (identity); which frame belongs to which stream is hyper-h2's demultiplexing "
-                  "(trusted, exercised by the peer oracle); the routing by id in HttpLayer.streams is demux_own_stream. Its send "
+                  "(trusted, exercised by the peer oracle); the routing by id in HttpLayer.streams is demux_own_stream (tied by the "
+                  "L ops). St.crashed (KeyError in their_stream_id) IS reachable in the model for a segment hyper-h2 would never "
+                  "report — trailers for a stream id that was never opened; crashed_only_by_unknown_trailers proves it "
+                  "unreachable under exactly that assumption (TrOk), which rests on hyper-h2 and is watched by the lock-step X= "
+                  "flag. reset_frees_slot's second conjunct is true by definition (it spells out what noFree counts). Its send "
                   "side uses the same BufferedH2Connection. When a WINDOW_UPDATE arrives in one segment with a GOAWAY hyper-h2 raises inside "
                   "receive_data; what is then left in the send buffers of the closed connection is not compared. "
                   "LENIENT BRANCHES of the oracle, all of them: (1) the END of a response is required at the client only once "
